@@ -4,6 +4,9 @@ Line protocol of engine `units` (tags are named by their Rust struct identifier,
 
   `ratio <A> <B>`   → 16 hex digits: bit pattern of `<A as Convert<B>>::RATIO`, or `inconvertible`
   `name <A>`        → `Unit::name()` of the tag's unit
+  `bound <A> <B> <obs in> <obs out>` → the error bound of theorem `c19_f64_convert_error` evaluated in exact
+                      arithmetic on one observed conversion: `ok` | `violated` | `range` (input or output not a
+                      finite number / output not a normal number) | `kind` (occurrences or kind changed)
   `eval <tok> …`    → a postfix program building a value; the reply describes what the value writes:
                       `<promised> nothing | string | metric <unit name> <obs,…|-> <ndims> | error <kind,…>`
                       or `ctor-error <kind,…>` when `Mean::try_new` fails.
@@ -56,6 +59,17 @@ def parseObs (s : String) : Option (Obs Float) :=
   else if s.startsWith "R" then
     match body.splitOn "x" with
     | [t, n] => do some (.repeated (← parseF t) (← parseU64 n))
+    | _ => none
+  else none
+
+/-- an observation as (value: exact u64 or f64 bit pattern, occurrences, kind 0/1/2) -/
+def parseObsBits (s : String) : Option ((Nat ⊕ Nat) × Nat × Nat) :=
+  let body := (s.drop 1).toString
+  if s.startsWith "U" then (parseU64 body).map fun u => (.inl u, 1, 0)
+  else if s.startsWith "F" then (parseHex16 body).map fun b => (.inr b, 1, 1)
+  else if s.startsWith "R" then
+    match body.splitOn "x" with
+    | [t, n] => do some (.inr (← parseHex16 t), ← parseU64 n, 2)
     | _ => none
   else none
 
@@ -187,6 +201,27 @@ def handle (line : String) : String :=
     match parseTag a with
     | some a => String.ofList a.name
     | none => "bad-op"
+  | ["bound", a, b, i, o] =>
+    match parseTag a, parseTag b, parseObsBits i, parseObsBits o with
+    | some a, some b, some (vi, ni, ki), some (zo, no, ko) =>
+      if ni ≠ no ∨ (ki == 2) != (ko == 2) then "kind"
+      else
+        -- input: exact value of the u64 / of the f64 bits
+        let v? : Option Rat := match vi with
+          | .inl u => some (u : Rat)
+          | .inr bits => f64ToRat bits
+        match v?, zo with
+        | some v, .inr zbits =>
+          if !(f64IsNormal zbits) then "range"
+          else match convertBoundOk a b v zbits with
+            | some true => "ok"
+            | some false => "violated"
+            | none => "range"
+        | some v, .inl u =>
+          -- ratio 1: the unsigned observation is returned as it is
+          if vi == .inl u then "ok" else if v == (u : Rat) then "ok" else "violated"
+        | none, _ => "range"
+    | _, _, _, _ => "bad-op"
   | "eval" :: toks => if toks.isEmpty then "bad-op" else eval toks
   | _ => "bad-op"
 
